@@ -538,12 +538,26 @@ def judge_c15(ctx, idx, op, impl, mi, ms, reason):
 
 def judge_c16(ctx, idx, op, impl, mi, ms, reason):
     label = ctx.case_label or ""
-    f = same(ctx, idx, op, impl, mi, "Impl.Avp.fromName/Msg.addByName <-> Avp::from_name/add_avp_by_name")
     st = ctx.case_state
+    r = kv(reason)
+    ambiguous_now = op[0] in ("add_by_name", "avp_name") and int(r.get("n", "0") or 0) > 1
+    if ambiguous_now:
+        # several live definitions carry the name: any of them is a correct pick (C14); the model's pick (first in key
+        # order) is not imposed on the code, and what was built from the pick is not compared until the next `new`
+        st["ambiguous"] = True
+    if op[0] == "new":
+        st.pop("ambiguous", None)
+    if st.get("ambiguous") and op[0] in ("add_by_name", "avp_name", "dump", "enc", "len", "add", "rt"):
+        f = []
+        if op[0] in ("add_by_name", "avp_name") and impl.split(" ")[0] != mi.split(" ")[0]:
+            f = same(ctx, idx, op, impl, mi, "Impl.Avp.fromName/Msg.addByName <-> Avp::from_name/add_avp_by_name")
+    else:
+        f = same(ctx, idx, op, impl, mi, "Impl.Avp.fromName/Msg.addByName <-> Avp::from_name/add_avp_by_name")
     if op[0] in ("add_by_name", "avp_name"):
-        ctx.count(op[0] + "_" + impl)
+        ctx.count(op[0] + "_" + impl + ("_ambiguous" if ambiguous_now else ""))
         if impl == "ok" and ms.startswith("def:") and ms != "def:none":
-            st["expect_def"] = ms[4:].split(",")
+            live = [x.split(",") for x in r.get("live", "").split(";") if x]
+            st["expect_defs"] = live if live else [ms[4:].split(",")]
         if impl == "ok" and ms == "def:none":
             f.append(Finding("property", idx, "building an AVP by a name the dictionary does not contain succeeded", expected="err", observed=impl, name="C16_unknown"))
         if impl == "err":
@@ -558,17 +572,17 @@ def judge_c16(ctx, idx, op, impl, mi, ms, reason):
             if want is not None and impl != want:
                 f.append(Finding("property", idx, "a failed add_avp_by_name changed the message (`%s` differs)" % op[0], expected=want, observed=impl, name="C16_unknown"))
         st.setdefault("seen", {})[op[0]] = impl
-        if op[0] == "dump" and "expect_def" in st:
-            d = st.pop("expect_def")
+        if op[0] == "dump" and "expect_defs" in st:
+            ds = st.pop("expect_defs")
             m = parse_msg(impl)
             ctx.count("byname_dump_check")
             if m and m["avps"]:
                 a = m["avps"][-1]
-                want = (d[0], d[1], ("1" if d[1] != "-" else "0") + d[4] + "0")
+                wants = [(d[0], d[1], ("1" if d[1] != "-" else "0") + d[4] + "0") for d in ds]
                 got = (a["code"], a["vendor"], a["vmp"])
-                if want != got:
-                    f.append(Finding("property", idx, "AVP built by name does not carry the code / vendor id / V bit / M flag the dictionary declares", expected=str(want), observed=str(got), name="C16_from_name"))
-        if op[0] == "enc" and " twin " in " " + label + " ":
+                if got not in wants:
+                    f.append(Finding("property", idx, "AVP built by name does not carry the code / vendor id / V bit / M flag the dictionary declares for that name", expected=str(wants), observed=str(got), name="C16_from_name"))
+        if op[0] == "enc" and " twin " in " " + label + " " and not st.get("ambiguous"):
             st.setdefault("encs", []).append(impl)
             if len(st["encs"]) == 2:
                 ctx.count("twin_check")
